@@ -213,7 +213,10 @@ func RunCrash(cfg CrashCfg, t *Trace, seg int) int {
 		if p > p0 && p < len(events) && events[p-1].Kind == vdisk.EvMark {
 			continue // a marker changes nothing on the disk; the boundary after it equals the one before
 		}
-		if p > p0 && (p-p0)%stride != 0 && p != len(events) {
+		// with a stride the boundaries next to a write of the journal's two header blocks are kept: a header write is a
+		// commit point (or the end of an installation), the one place where the set of recovered operations changes
+		hdr := func(q int) bool { return q >= 0 && q < len(events) && events[q].Kind == vdisk.EvWrite && events[q].Addr <= 1 }
+		if p > p0 && (p-p0)%stride != 0 && p != len(events) && !hdr(p-1) && !hdr(p) {
 			continue
 		}
 		win := vdisk.Window(events, p)
@@ -429,7 +432,7 @@ func crashScript(g *seqGen, variant int) {
 		c.Fh, c.Name, c.NLen = d, n, len(n)
 		g.learn(g.emit(c))
 	}
-	switch variant % 6 {
+	switch variant % 8 {
 	case 0: // holes filled by non-growing multi-block writes; pre-sized file
 		f := mk("CREATE", root, "f")
 		wr(f, B, B, 2)   // block 1, block 0 stays a hole
@@ -500,6 +503,32 @@ func crashScript(g *seqGen, variant int) {
 		simple("GETATTR", b)
 		simple("COMMIT", b)
 		wr(a, 8192, 100, 2)
+	case 6, 7: // large writes while the in-memory log is nearly full of UNSTABLE data: the journal has to flush in the middle of
+		// appending the request (go-journal's MemAppend), or absorbs nothing; one request must still be one transaction
+		x := mk("CREATE", root, "x")
+		y := mk("CREATE", root, "y")
+		wr(x, 0, 254*B, 2)
+		pend := []int{100, 100, 100}
+		big := []int{254, 130}
+		if variant%8 == 7 {
+			pend = []int{200, 190}
+			big = []int{400, 128}
+		}
+		for i, n := range pend {
+			wr(y, i*200*B, n*B, 0)
+		}
+		wr(x, 0, big[0]*B, 2) // over x's old contents: all of it or none of it
+		simple("GETATTR", x)
+		for i, n := range pend {
+			wr(y, i*200*B+50*B, n*B, 0)
+		}
+		wr(x, 100*B, big[1]*B, 1)
+		tr(x, 10*B)
+		for i, n := range pend {
+			wr(y, i*200*B+25*B, n*B, 0)
+		}
+		wr(x, 5*B+7, big[0]*B, 0)
+		simple("COMMIT", x)
 	case 3: // namespace: renames over existing targets, directory trees
 		d := mk("MKDIR", root, "d")
 		e := mk("MKDIR", d, "e")
